@@ -19,7 +19,7 @@ func init() { sim.Register(c16{}) }
 
 func (c16) ID() string     { return "C16" }
 func (c16) Level() string  { return "exploration" }
-func (c16) QuickRuns() int { return 10000 }
+func (c16) QuickRuns() int { return 120000 }
 func (c16) Rule() string {
 	return "each evaluation is one generated emitter history split at a generated point: head into emitter a, tail into a.Clone(), observations of a interleaved with the tail ops, Append with a chosen remaining capacity (ample, exact, one short, far short, nil targets), then post ops and Finalize on both a and a directly-fed twin d; distinct = distinct scenario hash; non-trivial = a label reference or definition crosses the split, or the Append was refused, or the capacity fits exactly"
 }
